@@ -7,6 +7,7 @@ def run(ctx, rep):
     rep.decided += [
         "S6 every claim is resolved: send_blocking ends in exactly one of mark_sent/release_sending_claim; poll puts back, hands on or releases the FrameBox on every path; Drop impls of CreatedFrame/ReceiveFrameFut/ReceivedFrame exist and release on every path; reset frees every index",
         "allocator: N<=255, N>0, power of two asserted; 2N round-robin attempts; Ok only with a successful claim",
+        "the transmit side lets go of a slot only by compare-exchange from Sending, so a slot released by an expired request during the send is never stranded in Sent/Sendable",
     ]
     rep.undecided += ["capacity after arbitrary operation histories", "allocation fails only when all slots are held, under concurrent cursor movement"]
     rep.trusted += ["rustc MIR/callee resolution"]
@@ -19,7 +20,23 @@ def run(ctx, rep):
         slotfsm.s6_poll(prog, rep, "C03", tag)
         slotfsm.s6_drops(prog, rep, "C03", tag)
         slotfsm.s6_reset(prog, rep, "C03", tag)
+        tx_lets_go(prog, rep, sites, tag)
         allocator(prog, rep, tag)
+
+
+def tx_lets_go(prog, rep, sites, tag):
+    """A request can expire (and its slot be released, even re-allocated) while the transmit side is still
+    inside send_blocking.  Whatever the transmit side then writes to the slot state must be conditional on
+    the slot still being in Sending - a plain store would leave the slot in Sent/Sendable with no owner:
+    no Drop, timeout or response ever returns it to None and the capacity is lost for good."""
+    P = "C03.tx"
+    mine = [s for s in sites if s["fn"].startswith("SendableFrame::")]
+    rep.floor("C03 transmit-side state changes" + tag, len(mine), 2)
+    for s in mine:
+        ok = s["kind"] == "cas" and s["frm"] == "Sending"
+        rep.ob(P, "conditional:%s->%s%s" % (s["fn"], s["to"], tag), ok,
+               "%s moves the slot to %s only by compare-exchange from Sending (%s%s): a slot released by an expired request while the frame was being sent is left alone instead of being stranded without an owner" % (s["fn"], s["to"], s["kind"], " from " + s["frm"] if s["frm"] else ""),
+               loc=s["call"].span, how="table")
 
 
 def allocator(prog, rep, tag):
